@@ -37,7 +37,7 @@ TrInit ==
 TrReset ==
     /\ IsEv("Reset")
     /\ mode' = IF Ln.kind = "svc" THEN "svc" ELSE "node"
-    /\ cfg' = [anon |-> Ln.anon, named |-> Ln.named, sco |-> Ln.sco]
+    /\ cfg' = [anon |-> Ln.hasAnon, named |-> Ln.hasNamed, sco |-> Ln.sco]
     /\ mem' = EmptyAll /\ closed' = NoneClosed /\ disk' = EmptyAll
     /\ told' = NoSeqs /\ toldB' = NoSeqs
     /\ node' = EmptyTopic /\ pc' = "idle" /\ cur' = NoPoint /\ pend' = NoPend /\ refeed' = FALSE
